@@ -51,10 +51,10 @@ from odxmodel import emit, emit_compare as ec, refcompare as ref
 PROPERTY = "C18"
 LEVEL = "exploration"
 
-QUICK_DBS = ["override", "names", "single", "flat", "tree", "shared", "somersault"]
+QUICK_DBS = sorted(ec.PREFIX_DBS) + ["override", "names", "single", "flat", "tree", "shared", "somersault"]
 THOROUGH_DBS = QUICK_DBS + ["somersault_modified"]
 CATS = ["new", "deleted", "renamed", "changed"]
-KEYWORDS = {"byte-position": ["byte"], "bit-length": ["bit"], "coded-value": ["value"], "semantic": ["semantic"],
+KEYWORDS = {"byte-position": ["byte"], "byte-position-remove": ["byte"], "byte-position-add": ["byte"], "bit-length": ["bit"], "coded-value": ["value"], "semantic": ["semantic"],
             "data-type": ["type", "dop"], "linked-dop": ["dop"],
             "dop-bit-length": ["bit", "dop"], "dop-data-type": ["type", "dop"], "dop-compu-category": ["dop"]}
 PARAM_RE = re.compile(r"(request|positive response|negative response) parameter '([^']*)'")
@@ -497,7 +497,10 @@ def run_case(case: Dict[str, Any], part: Optional[Part] = None) -> List[Tuple[st
                 part.add("nontrivial", digest((db_id, edit, target, role)))
             part.add("expected_kinds", kind)
     compare_and_judge("self/same-object", None, efiles, efiles, edb, edb)
-    layer_pairs(efiles, edb)
+    if case.get("deep") or db_id != "somersault":
+        # (quick: the PDX example has no overriding services; its layer pairs are judged on the base database and, in
+        # the thorough tier, on every edited copy)
+        layer_pairs(efiles, edb)
     if not ec.dop_targets(files):
         # the edited database in a renamed container against the base: still exactly the edit
         rfiles = ec.rename_containers(efiles)
@@ -927,8 +930,10 @@ def all_cases(db_ids: List[str], deep: bool) -> List[Dict[str, Any]]:
 def run(ctx: Ctx) -> None:
     db_ids = QUICK_DBS if ctx.quick else THOROUGH_DBS
     cases = all_cases(db_ids, deep=not ctx.quick)
-    clis = cli_cases(db_ids)
-    seqs = seq_cases(db_ids)
+    # the CLI and sequence phases use two of the six listing orders of the prefix databases (all orders get all edits)
+    phase_dbs = [d for d in db_ids if d not in ec.PREFIX_DBS or d in ("prefixes_210", "prefixes_102")]
+    clis = cli_cases(phase_dbs)
+    seqs = seq_cases(phase_dbs)
     per_db = Counter(c["db"] for c in cases)
     ctx.bounds = {"databases": db_ids, "service_edits": ec.SERVICE_EDITS, "param_edits": ec.PARAM_EDITS, "dop_edits_in_place": ec.DOP_EDITS,
                   "roles_of_the_edited_input": ["edited-new", "edited-old"], "cases_per_database": dict(per_db),
